@@ -54,6 +54,7 @@ def required(tier):
            'cruise-flag-type:bool', 'cruise-flag-type:int', 'cruise-flag-type:float',
            'segment-distance:scalar', 'segment-distance:per-segment:constant_final',
            'segment-distance:per-segment:constant_initial', 'altitude:below-sea-level',
+           'segment-distance:per-segment-sequence:constant_final', 'temperature:library-ISA-exactly',
            'profile:more-than-257-points:per-segment:constant_final']
     return {'classes': cl, 'evaluations': 1000}
 
@@ -123,6 +124,11 @@ def gen_profile(rng, p):
     acc = np.array([rng.choice([0.0, rng.uniform(-0.3, 0.5)]) for _ in range(n)])
     dT = rng.choice([0.0, rng.uniform(-20, 20), rng.uniform(10, 35)])
     T = np.array([isa.temperature(float(a)) + dT for a in alt])
+    if dT == 0.0:
+        # a standard day, built the way callers build it: with the library's own ISA function
+        # (bit-exact zero deviation at every point)
+        from AEIC.utils.standard_atmosphere import temperature_at_altitude_isa_bada4
+        T = np.asarray(temperature_at_altitude_isa_bada4(alt), float).copy()
     gs = v + np.array([rng.uniform(-30, 30) for _ in range(n)]) * (0.3 if vcr < 100 else 1)
     gs = np.maximum(gs, 10.0)
     dx = rng.uniform(2e3, 6e4) * (0.2 if p['engine_type'] == 'Piston' else 1)
@@ -131,6 +137,9 @@ def gen_profile(rng, p):
         dx = np.array([dx * rng.choice([rng.uniform(0.05, 3.0), 1.0, 0.0 if rng.random() < 0.1
                                         else 0.5]) for _ in range(n - 1)])
         dx_kind = 'per-segment'
+        if rng.random() < 0.4:      # a plain Python sequence instead of an array
+            dx = rng.choice([list, tuple])(float(x) for x in dx)
+            dx_kind = 'per-segment-sequence'
     # the cruise flag is documented as "float or array": booleans, 0/1 integers, 0./1. floats
     flag_kind = rng.choice(['bool', 'bool', 'int', 'float'])
     flags = np.array(cruise).astype({'bool': bool, 'int': np.int64, 'float': float}[flag_kind])
@@ -162,7 +171,7 @@ def run_shard(spec, rec):
         n_iter = rng.randint(1, 10)
         desc = {'engine': p['engine_type'], 'mode': mode, 'n_iter': n_iter, **pd_,
                 'segment_distance': (prof['segment_distance'] if pd_['dx_kind'] == 'scalar'
-                                     else prof['segment_distance'][:8].tolist())}
+                                     else list(prof['segment_distance'][:8]))}
         inputs_before = {kk: np.array(vv, copy=True) for kk, vv in prof.items()}
         try:
             ap = Bada3AircraftParameters()
@@ -296,7 +305,7 @@ def run_shard(spec, rec):
                 rec.cls('altitude:below-sea-level')
             if n >= 258:
                 rec.cls('profile:more-than-257-points')
-                if pd_['dx_kind'] == 'per-segment' and mode == 'constant_final':
+                if pd_['dx_kind'].startswith('per-segment') and mode == 'constant_final':
                     rec.cls('profile:more-than-257-points:per-segment:constant_final')
             rec.cls(f'cruise-flag-type:{pd_["flags"]}', f'segment-distance:{pd_["dx_kind"]}',
                     f'segment-distance:{pd_["dx_kind"]}:{mode}')
@@ -319,6 +328,10 @@ def run_shard(spec, rec):
                 rec.cls('cruise-flag:mixed')
             if pd_['hot']:
                 rec.cls('temperature:hot')
+            if pd_['dT'] == 0.0:
+                rec.cls('temperature:library-ISA-exactly')
+                if p['c_tc4'] < 0 and p['c_tc5'] > 0:
+                    rec.cls('temperature:library-ISA-exactly:negative-c_tc4')
             if k < 2:
                 rec.sample({**desc, 'params': {kk: p[kk] for kk in ('c_tc1', 'c_tc2', 'c_f1',
                                                                     'c_f2', 'S_ref', 'ref_mass')},
